@@ -107,6 +107,17 @@ def call(eng, e, st, fr, k):
                     new = {**recv, **other, **kw}
                     return eng.assign(e.func.value, new, s, fr, lambda s2: k(PNONE, s2), e)
                 return eval_args(eng, e, s0, fr, merged)
+            if isinstance(recv, dict) and e.func.attr == "setdefault" and isinstance(e.func.value, (ast.Name, ast.Attribute)):
+                # d.setdefault("key", default) on a literal dict held by value
+                def setdef(a, kw, s):
+                    if not a or not isinstance(a[0], str):
+                        raise Unsupported("dict.setdefault with a non-constant key")
+                    if a[0] in recv:
+                        return k(recv[a[0]], s)
+                    val = a[1] if len(a) > 1 else PNONE
+                    new = {**recv, a[0]: val}
+                    return eng.assign(e.func.value, new, s, fr, lambda s2: k(val, s2), e)
+                return eval_args(eng, e, s0, fr, setdef)
             kind = value_kind(recv)
             m = METHODS.get((kind, e.func.attr))
             if m is None and isinstance(recv, Ref) and recv.kind == "obj":
